@@ -86,6 +86,7 @@ def run(tier, seed, replay, extra):
         results = list(ex.map(one, seeds))
 
     r = vreport.Run(prop, tier, seed)
+    r.start = t0
     r.rule = ("N cold processes of the C21 workload (see the Go monitor's rule) under the Go race detector "
               "(GORACE halt_on_error=0 log_path=...); race reports are de-duplicated by the pair of innermost ygot frames; "
               "non-trivial = operation executed concurrently; distinct by process seed+phase+operation+goroutine+round")
